@@ -1,4 +1,5 @@
 import DesperProofs.Lemmas.WorldLog
+import DesperProofs.Lemmas.WorldWalk
 import DesperProofs.Lemmas.WorldLife
 import DesperProofs.Lemmas.WorldPWorld
 /-
@@ -153,6 +154,30 @@ theorem C07_gets_on_add (U : Universe) [U.NoReenter] (s : St) (p : Obj) (prio? :
   rw [callCb_log, (ctrlRecord_fields U _ onAdd p none).2.2.1]
   cases prio? <;> rfl
 
+/-- The replaced processor gets `on_remove`: removing the processor registered for exactly type
+`t` — which is the first thing `add_processor` does when the type is already present
+(world.py:395-396, `C07_replace`) — while dispatching is enabled calls the `on_remove` method its
+class declares exactly once, with no owning entity, and hands that instance back. -/
+theorem C07_replaced_gets_on_remove (U : Universe) [U.NoReenter] (s : St) (t : Ty) (q : Obj)
+    (m : Mapping) (meth : String) (hq : Dict.get? s.procs t = some q) (hm : U.mapOf q = some m)
+    (hon : Dict.get? m onRemove = some meth) (hen : s.enabled = true) :
+    (removeProcessor U s t).2.2 = some q ∧
+    (removeProcessor U s t).1.log = .life onRemove q meth none :: s.log := by
+  obtain ⟨rest, hr⟩ := visit_head U t
+  unfold removeProcessor
+  rw [hr, List.find?_cons]
+  simp only [hq, Option.isSome_some, hm]
+  unfold lifecycle
+  simp only [hon]
+  have he : (dropProc U s t).enabled = true := hen
+  simp only [he, if_true]
+  have hl := callCb_log U (ctrlRecord U (dropProc U s t) onRemove q none) q meth (.life onRemove q meth none)
+  rw [(ctrlRecord_fields U _ onRemove q none).2.2.1] at hl
+  cases hx : callCb U (ctrlRecord U (dropProc U s t) onRemove q none) q meth (.life onRemove q meth none) with
+  | mk s' o =>
+    rw [hx] at hl
+    cases o <;> exact ⟨rfl, hl⟩
+
 /-! non-vacuity: three processor classes, priorities 1, 0 (explicit), 0 (tie, added later) -/
 private def exU : Universe :=
   { classes := [{ bases := [], isProc := true, prio := 1 }, { bases := [], isProc := true, prio := 5 },
@@ -172,8 +197,19 @@ example : (addProcessor exU {} 1 (some 0)).2 = .ok ∧ 1 ∈ (addProcessor exU {
 /-- non-vacuity of `C07_gets_on_add`: a processor class mapping `on_add` to `m` -/
 private def exU2 : Universe :=
   { classes := [{ bases := [], isProc := true, prio := 1 }],
-    mapping := fun _ => some [(onAdd, "m")], objTy := fun _ => some 0, raises := fun _ _ _ => none }
+    mapping := fun _ => some [(onAdd, "m"), (onRemove, "r")], objTy := fun _ => some 0, raises := fun _ _ _ => none }
 
-example : exU2.mapOf 5 = some [(onAdd, "m")] ∧ ({} : St).enabled = true ∧
+example : exU2.mapOf 5 = some [(onAdd, "m"), (onRemove, "r")] ∧ ({} : St).enabled = true ∧
     (addProcessor exU2 {} 5 none).1.log = [.life onAdd 5 "m" none] := by
+  decide
+
+/-- non-vacuity of `C07_replaced_gets_on_remove`: adding a second instance of the class replaces
+the first, which gets `on_remove` before the new one gets `on_add` -/
+example :
+    let s := (addProcessor exU2 {} 5 none).1
+    Dict.get? s.procs 0 = some 5 ∧ s.enabled = true ∧
+    (removeProcessor exU2 s 0).1.log = [.life onRemove 5 "r" none, .life onAdd 5 "m" none] ∧
+    (addProcessor exU2 s 6 none).1.log =
+      [.life onAdd 6 "m" none, .life onRemove 5 "r" none, .life onAdd 5 "m" none] ∧
+    (addProcessor exU2 s 6 none).1.sorted = [6] := by
   decide
